@@ -135,8 +135,17 @@ func check(args []string) int {
 	tmp, _ := os.MkdirTemp("", "ionvc-")
 	defer os.RemoveAll(tmp)
 	opts := &vc.SolveOpts{TimeoutS: timeout, TmpDir: tmp, Sem: make(chan struct{}, 16)}
-	if d := os.Getenv("IONVC_CACHE"); d != "" {
+	// Solver answers are cached across the property checks of one tree, keyed by the hash of
+	// the complete (sliced) SMT query: the verification conditions are regenerated from the
+	// source on every run, and only a byte-identical query reuses an earlier `unsat`.
+	opts.CacheDir = filepath.Join(*verif, ".cache")
+	if d := os.Getenv("IONVC_CACHE"); d == "off" {
+		opts.CacheDir = ""
+	} else if d != "" {
 		opts.CacheDir = d
+	}
+	if *mutate != "" {
+		opts.CacheDir = ""
 	}
 
 	var kfs []knownFinding
@@ -168,6 +177,11 @@ func check(args []string) int {
 		}
 	}
 	runs := runTargets(w, cs, opts, 8)
+	// C18: the shared-state frame obligations are decided by the flow analysis over go/ssa
+	var frameObls []vc.FrameObligation
+	if *prop == "C18" {
+		frameObls = vc.FrameScan(w)
+	}
 	// thorough: every proof is put to a second, independent solver
 	secondAgreed, secondUndecided := 0, 0
 	if *tier == "thorough" {
@@ -239,6 +253,28 @@ func check(args []string) int {
 			unproved = append(unproved, or.Obl.Name)
 			failed = append(failed, &replayCase{run: r, res: or, id: len(failed)})
 		}
+	}
+	for _, fo := range frameObls {
+		total++
+		if fo.OK {
+			discharged++
+			byBackend["ssa-frame-analysis"]++
+			if len(samples) < 6 {
+				samples = append(samples, map[string]interface{}{"obligation": fo.Name, "kind": "frame", "status": "discharged", "backend": "ssa-frame-analysis", "note": fo.Detail})
+			}
+			continue
+		}
+		if kf, ok := known[fo.Name]; ok {
+			fmt.Printf("KNOWN-FINDING: property=%s %s [%s]\n", *prop, kf.What, fo.Name)
+			knownPrinted = append(knownPrinted, fo.Name+": "+kf.What)
+			continue
+		}
+		unproved = append(unproved, fo.Name)
+		p := filepath.Join(replayDir, *prop+"_"+sanitize(fo.Name)+".txt")
+		os.WriteFile(p, []byte(fmt.Sprintf("obligation: %s\nkind: frame (shared state is not written after construction)\nproperty: %s\nfunction: %s\nposition: %s\n\n"+
+			"the function may write to shared state:\n  %s\n\nno solver is involved: the obligation is decided by a conservative flow analysis over go/ssa, "+
+			"so there is no model to replay\n", fo.Name, *prop, fo.Func, fo.Pos, strings.ReplaceAll(fo.Detail, "; ", "\n  "))), 0o644)
+		violation(p, " no-failing-input-found")
 	}
 	// replay every counterexample in one run of the real package, then report
 	var withModel []*replayCase
